@@ -41,7 +41,7 @@ CLAIMED = {
          "discretised non-linear integral equation for which Mathlib has no theory; that part is validated numerically. Proved (Lean, all named ..._partial): rank1_oz_partial and rank1_from_cost_partial (what a "
          "one-component cost evaluation stores satisfies h(1 - rho omega c) = omega c omega, S(1 - rho omega c) = omega: pins site vs pair density and the sign conventions of c and gamma), "
          "dilute_fixed_point_partial / dilute_gamma_zero_partial (Filter.Tendsto as rho -> 0: gamma = 0 is the fixed point), dilute_closures_partial (there g = e^{-u/kT} for PY/HNC, 1 - u/kT for MSA, 0 inside a "
-         "flagged core), wertheim_contact_consistent_partial (-c(1^-) = (1+eta/2)/(1-eta)^2) and wertheim_compressibility_consistent_partial (1 - 24 eta Int_0^1 c r^2 dr = (1+2 eta)^2/(1-eta)^4 = 1/S(0), a "
+         "flagged core), b2_riemann_partial (the reported -h(k0)/2 is the Riemann sum of -2 pi Int f r^2 dr up to sin(k0 s)/(k0 s)), wertheim_contact_consistent_partial (-c(1^-) = (1+eta/2)/(1-eta)^2) and wertheim_compressibility_consistent_partial (1 - 24 eta Int_0^1 c r^2 dr = (1+2 eta)^2/(1-eta)^4 = 1/S(0), a "
          "kernel-checked interval integral): the reference values the harness compares against are mutually consistent. Validation runs on the implementation: PY hard spheres eta = 0.05..0.45 on refinement "
          "families (contact value, S(k), S(0), c(r) against the references evaluated by the Lean driver, |error| <= K(eta)*dr on every member), every shipped potential x {PY, HNC, MSA} in the dilute limit "
          "(g and second virial), and the rank-1 reduction after arbitrary cost(x) with model correspondence.",
@@ -54,7 +54,7 @@ CLAIMED = {
          "re-used Systems are evaluated on the implementation.",
          "4 C03", "Lean 4 proof (closure algebra + DST inverse through the cost model) + differential correspondence"),
  'C04': ("Lean theorems: matrix_map_perm (the per-wavenumber map (Omega, C) -> (1 - Omega C)^-1 Omega C Omega of cost is equivariant under EVERY permutation of the type labels; Matrix.submatrix / inverse lemmas), "
-         "elementwise_perm, prism_solution_unique (an invertible PRISM equation has exactly the solution cost computes), split_lifts (for ANY number of labelled species with densities summing to rho and ANY symmetric "
+         "elementwise_perm, prism_solution_unique (an invertible PRISM equation has exactly the solution cost computes), cost_totalCorr_is_Hmap (the totalCorr a cost evaluation stores IS that map of the stored omega and directCorr), split_lifts (for ANY number of labelled species with densities summing to rho and ANY symmetric "
          "Omega whose rows sum to rho_a omega - monatomic A/A' with any ratio, diblock halves with the 1/(N_A+N_B) cross convention - the lifted h_ab = h, c_ab = c solve the n-component PRISM equation), monatomic_rows "
          "(the code's rho_site convention has those row sums), potential_homogeneous (all seven shipped potential kinds, degree 1 in the energies), closure_input_invariant (U_s/(s kT) = U/kT), pmf_scales. "
          "PARTIAL: equivariance is proved stage by stage (matrix map here; the closure and transform stages act pair by pair by C01's CostTrace lemmas) rather than as one statement about cost. "
@@ -73,10 +73,10 @@ CLAIMED = {
          "structure_factor_steps, flip_is_step); such a move preserves the canonical (Fourier) form of every stored array (ensureFourier_canon, ensureReal_canon, roundtrip_RF/FR from the DST inverse "
          "theorems), hence so does EVERY finite history (history_preserves_canon, calls_preserve_canon - induction over ReflTransGen Step); what the formulas read is determined by the canonical form "
          "(ensureFourier_eq_canon, ensureReal_of_canon, reads_history_free), and the returned values are entry-wise functions of that (C05 *_def); after solve the arrays are those of the last evaluated point "
-         "(C01.solve_leaves_returned_root). PARTIAL: solvation_potential's step decomposition and re-solve from the own root (an idealisation about the external root finder) are covered by the correspondence, "
-         "not by a theorem. Random call histories (<= 12 / <= 40 calls, 2-3 components, solved and hand-populated objects, re-solves) are run on the real object and on the model, comparing every return value, "
+         "(C01.solve_leaves_returned_root); solvation_steps; cost_eq_of_static and resolve_returns_same_state (a later solve whose last evaluation is again at x* leaves EXACTLY the same object, whatever "
+         "happened in between - 'a root finder started on its own root evaluates last at that root' is the oracle assumption, sampled). Random call histories (<= 12 / <= 40 calls, 2-3 components, solved and hand-populated objects, re-solves) are run on the real object and on the model, comparing every return value, "
          "stored array and flag after every call, and every return value with the same call on a pristine copy.",
-         "4 C06", "Lean 4 proof (state-machine invariant by induction over call histories) + differential correspondence; partial for solvation/re-solve"),
+         "4 C06", "Lean 4 proof (state-machine invariant by induction over call histories) + differential correspondence"),
  'C07': ("Lean theorems about the Domain model, for EVERY length N >= 1, every non-zero spacing, every finite dr/dk/length setter history and every array: "
          "construct_ok_iff, reachable_fresh (induction over histories: the state equals the fresh Domain(length, dr) and dk*dr*length = pi), grid_size/grid_r/grid_k, "
          "toFourier_linear, toReal_linear, toReal_toFourier and toFourier_toReal (from the kernel-checked DST orthogonality relations: dst3(dst2 x) = dst2(dst3 x) = 2N x), "
@@ -92,7 +92,7 @@ CLAIMED = {
          "on refinement families dr, dr/2, dr/4 (incl. non-5-smooth lengths) with a first-order criterion forward, backward and at k -> 0.",
          "4 C08", "Lean 4 proof (Riemann-sum identities, interval-integral error bound, limit) + differential/analytic validation; partial (backward bound)"),
  'C09': ("Lean theorems about the closure model: py/hnc/msa/msA/msB_eq_published, core_branch (all closures, every r <= sigma), py/hnc/msa_linearises "
-         "(|c+u| <= 2(gamma^2+u^2) on |gamma|,|u| <= 1/2), elementwise, and for the shipped Martynov-Sarkisov expression ms_shipped_formula plus the negation witness "
+         "(|c+u| <= 2(gamma^2+u^2) on |gamma|,|u| <= 1/2), msA/msB_linearises (the two published Martynov-Sarkisov forms, |c+u| <= 12(gamma^2+u^2) on |gamma|,|u| <= 1/4), elementwise, and for the shipped Martynov-Sarkisov expression ms_shipped_formula plus the negation witness "
          "ms_shipped_not_zero_at_zero (known finding F6, pinned by a baseline test); the model is compared with all 8 classes/aliases on the real grid with bit-exact masks; "
          "published relations and purity/element-wise probes are evaluated on the implementation.",
          "4 C09", "Lean 4 proof (algebraic laws, exp inequalities) + differential correspondence"),
